@@ -67,16 +67,123 @@ UNDEF = ('undef',)
 
 
 # ------------------------------------------------------------------------------------------------ symbolic execution
+TRUE, FALSE, NONE = ('true',), ('false',), ('none',)      # the two constants never survive into an emitted term
+INPUTS = ('kwRoute', 'kwTestId', 'kwTimestamp', 'arg', 'old', 'code')      # terms that stand for a fixed input value
+
+
+def subst(t, x, v):
+    """replace every occurrence of the subterm x in t by v"""
+    if t == x:
+        return v
+    if isinstance(t, tuple):
+        return tuple(subst(y, x, v) if isinstance(y, tuple) else y for y in t)
+    return t
+
+
+def fold(t):
+    """constant folding, bottom-up: notNone/truthy of None, not/and/ite on constants"""
+    if not isinstance(t, tuple) or len(t) == 1:
+        return t
+    t = tuple(fold(y) if isinstance(y, tuple) else y for y in t)
+    h = t[0]
+    if h in ('notNone', 'truthy') and t[1] == NONE:
+        return FALSE
+    if h == 'not':
+        return FALSE if t[1] == TRUE else TRUE if t[1] == FALSE else mk_not(t[1])
+    if h == 'and':
+        return mk_and(t[1], t[2])
+    if h == 'ite':
+        return mk_ite(t[1], t[2], t[3])
+    return t
+
+
 def mk_not(c):
     return c[1] if c[0] == 'not' else ('not', c)
 
 
+LOOKUPS = ('pfxSink', 'pfxConsume', 'idSink')
+
+
+def total(t, facts=()):
+    """a condition / value that always evaluates, without effect: tests of inputs, constants, dict membership, reads of locals that
+    hold the result of a lookup (the lookup itself happened where the local was bound - `RouterStatus` admits it only on a path
+    that has tested the key), a slice / split of something known not to be None"""
+    if not isinstance(t, tuple):
+        return False
+    h = t[0]
+    if h in INPUTS or t == NONE:
+        return True
+    if h in ('notNone', 'truthy', 'not', 'inPrefixes', 'inIds') + LOOKUPS:
+        return all(total(x, facts) for x in t[1:])
+    if h == 'and':
+        return total(t[1], facts) and total(t[2], facts + (t[1],))
+    if h == 'ite':
+        return total(t[1], facts) and total(t[2], facts + (t[1],)) and total(t[3], facts)
+    if h in ('firstSeg', 'dropSeg'):
+        return ('notNone', t[1]) in facts and all(total(x, facts) for x in t[1:])
+    return False
+
+
+def has_lookup(t):
+    return any(isinstance(x, tuple) and x[0] in LOOKUPS for x in flat(t))
+
+
+def conjuncts(t):
+    return conjuncts(t[1]) + conjuncts(t[2]) if t[0] == 'and' else [t]
+
+
+def mk_and(a, b):
+    """`a and b`, right-nested.  When every conjunct always evaluates (see `total`) their order is immaterial and they are put in a
+    canonical order: tests that read a looked-up value after those that do not (so a membership test stays in front of the reads
+    it guards), then alphabetically.  Otherwise the order is kept - with short-circuit evaluation a later operand may only be
+    defined when the earlier ones hold."""
+    cs = [c for c in conjuncts(a) + conjuncts(b) if c != TRUE]
+    if FALSE in cs:
+        return FALSE
+    if not cs:
+        return TRUE
+    if all(total(c) for c in cs):
+        cs = sorted(set(cs), key=lambda c: (has_lookup(c), repr(c)))
+    r = cs[-1]
+    for c in reversed(cs[:-1]):
+        r = ('and', c, r)
+    return r
+
+
+def assume(t, c, value):
+    """t simplified under the knowledge that the (pure) condition c is `value`: c itself becomes a constant, and where
+    `x is not None` is false for an input x, x is None"""
+    t = subst(t, c, TRUE if value else FALSE)
+    if not value and c[0] == 'notNone' and c[1][0] in INPUTS:
+        t = subst(t, c[1], NONE)
+    return fold(t)
+
+
 def mk_ite(c, a, b):
-    if a == b:
+    if c == TRUE:
         return a
+    if c == FALSE:
+        return b
     if c[0] == 'not':
         return mk_ite(c[1], b, a)
+    if a == b:                                          # not touched by either arm
+        return a
+    a, b = assume(a, c, True), assume(b, c, False)      # path-sensitive: each arm is read knowing the outcome of the test
+    if a == b:
+        return a
+    if c == ('notNone', a) and b == NONE:               # `x if x is not None else None` is x
+        return a
+    if a[0] == 'ite' and a[3] == b:                     # `if c: (if d: x else: y) else: y` is `if c and d: x else: y`
+        return mk_ite(mk_and(c, a[1]), a[2], b)
     return ('ite', c, a, b)
+
+
+def flat(t):
+    yield t
+    if isinstance(t, tuple):
+        for y in t[1:]:
+            if isinstance(y, tuple):
+                yield from flat(y)
 
 
 class Sym:
@@ -85,6 +192,21 @@ class Sym:
     def __init__(self, env):
         self.env = dict(env)
         self.bad = False
+        self.path = []              # (condition, value) of the enclosing ifs
+
+    def holds(self, c):
+        """is the condition known to hold on this path (syntactically: one of the enclosing tests, or a conjunct of one)"""
+        def facts(t, v):
+            if t[0] == 'not':
+                return facts(t[1], not v)
+            if t[0] == 'and' and v:
+                return facts(t[1], True) + facts(t[2], True)
+            return [(t, v)]
+        return any((c, True) in facts(t, v) for t, v in self.path)
+
+    def norm(self, c):
+        """domain-specific reading of a condition"""
+        return c
 
     # -- expressions
     def atom(self, e):
@@ -103,7 +225,7 @@ class Sym:
             return a
         if isinstance(e, ast.BoolOp) and isinstance(e.op, ast.Or) and len(e.values) == 2:
             a = self.expr(e.values[0])                       # `a or b` as a value: a if a else b
-            return mk_ite(('truthy', a), a, self.expr(e.values[1]))
+            return mk_ite(fold(self.norm(('truthy', a))), a, self.expr(e.values[1]))
         if isinstance(e, ast.Compare) or (isinstance(e, ast.BoolOp) and isinstance(e.op, ast.And)) \
                 or (isinstance(e, ast.UnaryOp) and isinstance(e.op, ast.Not)):
             return self.cond(e)
@@ -117,15 +239,17 @@ class Sym:
         if isinstance(t, ast.BoolOp) and isinstance(t.op, ast.And):
             r = self.cond(t.values[0])
             for v in t.values[1:]:
-                r = ('and', r, self.cond(v))
+                r = mk_and(r, self.cond(v))
             return r
         if isinstance(t, ast.Compare) and len(t.ops) == 1:
             op, a, b = t.ops[0], t.left, t.comparators[0]
             none = lambda x: isinstance(x, ast.Constant) and x.value is None
-            if isinstance(op, ast.IsNot) and none(b):
-                return ('notNone', self.expr(a))
-            if isinstance(op, ast.Is) and none(b):
-                return mk_not(('notNone', self.expr(a)))
+            # `== None` / `!= None` read as `is None` / `is not None`: the values here are str / bytes / set / datetime / None,
+            # none of which compares equal to None
+            if isinstance(op, (ast.IsNot, ast.NotEq)) and none(b):
+                return fold(self.norm(('notNone', self.expr(a))))
+            if isinstance(op, (ast.Is, ast.Eq)) and none(b):
+                return fold(mk_not(self.norm(('notNone', self.expr(a)))))
             c = self.compare(op, a, b)
             if c is not None:
                 return c
@@ -135,7 +259,7 @@ class Sym:
             return a
         if isinstance(t, ast.BoolOp):
             return OTHER                                     # `or` in a condition: not in the language
-        return ('truthy', self.expr(t))
+        return fold(self.norm(('truthy', self.expr(t))))
 
     def compare(self, op, a, b):
         return None
@@ -152,6 +276,8 @@ class Sym:
         return False
 
     def stmt(self, s):
+        if '__returned__' in self.env:
+            self.bad = True                          # a statement reached although some path before it has returned
         if isinstance(s, ast.Pass):
             return
         if isinstance(s, ast.Expr) and isinstance(s.value, ast.Constant):
@@ -162,8 +288,13 @@ class Sym:
             if self.assign(s.targets[0], self.expr(s.value)):
                 return
         if isinstance(s, ast.If):
+            if not s.orelse and len(s.body) == 1 and isinstance(s.body[0], ast.If) and not s.body[0].orelse:
+                # `if c: if d: B` (no else anywhere) is `if c and d: B`
+                return self.stmt(ast.If(test=ast.BoolOp(op=ast.And(), values=[s.test, s.body[0].test]), body=s.body[0].body, orelse=[]))
             c = self.cond(s.test)
             a, b = self.fork(), self.fork()
+            a.path = self.path + [(c, True)]
+            b.path = self.path + [(c, False)]
             a.block(s.body)
             b.block(s.orelse)
             self.bad = self.bad or a.bad or b.bad
@@ -172,7 +303,12 @@ class Sym:
             return
         if self.effect(s):
             return
+        if isinstance(s, ast.Return) and (s.value is None or ast.unparse(s.value) == 'None') and self.returns_none:
+            self.env['__returned__'] = NONE        # end of this path (only as the last statement of a block, see `block`)
+            return
         self.bad = True
+
+    returns_none = False
 
     def special_assign(self, s):
         return False
@@ -184,6 +320,7 @@ class Sym:
         f = self.__class__.__new__(self.__class__)
         f.__dict__.update(self.__dict__)
         f.env = dict(self.env)
+        f.path = list(self.path)
         f.bad = False
         return f
 
@@ -193,18 +330,31 @@ class Sym:
                 # `if c: …; return x` followed by more statements: the rest is the else arm
                 self.stmt(ast.If(test=s.test, body=s.body, orelse=stmts[i + 1:]))
                 return
+            if isinstance(s, ast.Return) and stmts[i + 1:]:
+                self.bad = True                      # dead code after a return
             self.stmt(s)
 
     def out(self, key):
-        return OTHER if self.bad else self.env.get(key, UNDEF)
+        t = OTHER if self.bad else fold(self.env.get(key, UNDEF))
+        return OTHER if (TRUE in flat(t) or FALSE in flat(t)) else t
 
 
 # ------------------------------------------------------------------------------------------------ C18: StreamResultRouter
 class RouterStatus(Sym):
     """`StreamResultRouter.status(self, **kwargs)`: who gets the event, and with which route code"""
 
+    returns_none = True
+
     def __init__(self):
         Sym.__init__(self, {'kw:route_code': ('kwRoute',), 'kw:test_id': ('kwTestId',)})
+        self.alias = {}
+
+    def table(self, e):
+        """`self._route_code_prefixes` / `self._test_ids`, or a local bound to one of them (the dicts are only read here)"""
+        src = ast.unparse(e)
+        if isinstance(e, ast.Name) and e.id in self.alias:
+            return self.alias[e.id]
+        return {'self._route_code_prefixes': 'prefixes', 'self._test_ids': 'ids'}.get(src)
 
     def kw(self, e):
         """kwargs.get("k"[, None]) / kwargs["k"] -> key"""
@@ -222,11 +372,14 @@ class RouterStatus(Sym):
         src = ast.unparse(e)
         if src == 'self.fallback':
             return ('fallback',)
-        # X.split("/")[0]
+        # X.split("/")[0]; also X.split("/", n)[0] for a literal n >= 1 and X.partition("/")[0]: the same first segment
         if isinstance(e, ast.Subscript) and isinstance(e.slice, ast.Constant) and e.slice.value == 0 and isinstance(e.value, ast.Call) \
-                and isinstance(e.value.func, ast.Attribute) and e.value.func.attr == 'split' and len(e.value.args) == 1 \
+                and isinstance(e.value.func, ast.Attribute) and not e.value.keywords and e.value.args \
                 and isinstance(e.value.args[0], ast.Constant) and e.value.args[0].value == '/':
-            return ('firstSeg', self.expr(e.value.func.value))
+            m, extra = e.value.func.attr, e.value.args[1:]
+            if (m == 'split' and (not extra or (len(extra) == 1 and isinstance(extra[0], ast.Constant) and type(extra[0].value) is int and extra[0].value >= 1))) \
+                    or (m == 'partition' and not extra):
+                return ('firstSeg', self.expr(e.value.func.value))
         # X[len(Y) + 1:]
         if isinstance(e, ast.Subscript) and isinstance(e.slice, ast.Slice) and e.slice.upper is None and e.slice.step is None \
                 and isinstance(e.slice.lower, ast.BinOp) and isinstance(e.slice.lower.op, ast.Add):
@@ -234,26 +387,60 @@ class RouterStatus(Sym):
             for a, b in ((lo.left, lo.right), (lo.right, lo.left)):
                 if isinstance(b, ast.Constant) and b.value == 1 and isinstance(a, ast.Call) and ast.unparse(a.func) == 'len' and len(a.args) == 1:
                     return ('dropSeg', self.expr(e.value), self.expr(a.args[0]))
-        if isinstance(e, ast.Subscript) and ast.unparse(e.value) == 'self._test_ids':
-            return ('idSink', self.expr(e.slice))
+        if isinstance(e, ast.Subscript) and self.table(e.value) == 'ids':
+            k = self.expr(e.slice)
+            if not self.holds(('inIds', k)):
+                self.bad = True                      # a lookup on a path that has not tested the key: may raise KeyError
+            return ('idSink', k)
+        # entry[0] / entry[1] of a looked-up (sink, consume_route) pair
+        if isinstance(e, ast.Subscript) and isinstance(e.slice, ast.Constant) and e.slice.value in (0, 1) and isinstance(e.value, ast.Name) \
+                and self.env.get(e.value.id, OTHER)[0] == 'pfxEntry':
+            k = self.env[e.value.id][1]
+            if not self.holds(('inPrefixes', k)):
+                self.bad = True
+            return (('pfxSink', 'pfxConsume')[e.slice.value], k)
         return None
 
+    def norm(self, c):
+        # `entry = self._route_code_prefixes.get(k)`: the values of that dict are 2-tuples, so `entry is not None` / `entry` is `k in …`
+        if c[0] in ('notNone', 'truthy') and c[1][0] == 'pfxEntry':
+            return ('inPrefixes', c[1][1])
+        return c
+
     def compare(self, op, a, b):
-        if isinstance(op, ast.In) and ast.unparse(b) == 'self._route_code_prefixes':
+        if isinstance(op, ast.In) and self.table(b) == 'prefixes':
             return ('inPrefixes', self.expr(a))
-        if isinstance(op, ast.In) and ast.unparse(b) == 'self._test_ids':
+        if isinstance(op, ast.In) and self.table(b) == 'ids':
             return ('inIds', self.expr(a))
+        if isinstance(op, ast.NotIn) and self.table(b) in ('prefixes', 'ids'):
+            return mk_not(self.compare(ast.In(), a, b))
         return None
 
     def special_assign(self, s):
         t = s.targets[0]
-        # target, consume_route = self._route_code_prefixes[prefix]
-        if isinstance(t, ast.Tuple) and len(t.elts) == 2 and all(isinstance(x, ast.Name) for x in t.elts) \
-                and isinstance(s.value, ast.Subscript) and ast.unparse(s.value.value) == 'self._route_code_prefixes':
-            k = self.expr(s.value.slice)
-            self.env[t.elts[0].id] = ('pfxSink', k)
-            self.env[t.elts[1].id] = ('pfxConsume', k)
+        if isinstance(t, ast.Name) and ast.unparse(s.value) in ('self._route_code_prefixes', 'self._test_ids'):
+            self.alias[t.id] = self.table(s.value)
             return True
+        # entry = self._route_code_prefixes.get(prefix[, None])
+        v = s.value
+        if isinstance(t, ast.Name) and isinstance(v, ast.Call) and isinstance(v.func, ast.Attribute) and v.func.attr == 'get' \
+                and self.table(v.func.value) == 'prefixes' and not v.keywords and 1 <= len(v.args) <= 2 \
+                and (len(v.args) == 1 or ast.unparse(v.args[1]) == 'None'):
+            self.env[t.id] = ('pfxEntry', self.expr(v.args[0]))
+            return True
+        # target, consume_route = self._route_code_prefixes[prefix]   /   … = entry
+        if isinstance(t, ast.Tuple) and len(t.elts) == 2 and all(isinstance(x, ast.Name) for x in t.elts):
+            k = None
+            if isinstance(v, ast.Subscript) and self.table(v.value) == 'prefixes':
+                k = self.expr(v.slice)
+            elif isinstance(v, ast.Name) and self.env.get(v.id, OTHER)[0] == 'pfxEntry':
+                k = self.env[v.id][1]
+            if k is not None:
+                if not self.holds(('inPrefixes', k)):
+                    self.bad = True                  # a lookup on a path that has not tested the key: may raise KeyError
+                self.env[t.elts[0].id] = ('pfxSink', k)
+                self.env[t.elts[1].id] = ('pfxConsume', k)
+                return True
         # kwargs["route_code"] = X
         if isinstance(t, ast.Subscript) and ast.unparse(t.value) == 'kwargs' and isinstance(t.slice, ast.Constant):
             if t.slice.value != 'route_code':
@@ -263,7 +450,7 @@ class RouterStatus(Sym):
         return False
 
     def effect(self, s):
-        # <target>.status(**kwargs): the one forwarding call, last statement
+        # <target>.status(**kwargs): the forwarding call - exactly one on every path
         if isinstance(s, ast.Expr) and isinstance(s.value, ast.Call) and isinstance(s.value.func, ast.Attribute) and s.value.func.attr == 'status' \
                 and not s.value.args and len(s.value.keywords) == 1 and s.value.keywords[0].arg is None and ast.unparse(s.value.keywords[0].value) == 'kwargs' \
                 and '__target__' not in self.env:
@@ -280,10 +467,11 @@ def ctl_stmts(fn, method):
     out = []
     for s in body_of(fn):
         src = ast.unparse(s)
-        if src == 'super().%s()' % method:
+        if src in ('super().%s()' % method, 'super(StreamResultRouter, self).%s()' % method):
             out.append(('superCall',))
-        elif src == 'for sink in self._sinks:\n    sink.%s()' % method:
-            out.append(('forSinksCall', method == 'startTestRun'))
+        elif isinstance(s, ast.For) and not s.orelse and isinstance(s.target, ast.Name) and ast.unparse(s.iter) == 'self._sinks' \
+                and [ast.unparse(b) for b in s.body] == ['%s.%s()' % (s.target.id, method)]:
+            out.append(('forSinksCall', method == 'startTestRun'))        # the name of the loop variable is immaterial
         elif src in ('self._in_run = True', 'self._in_run = False'):
             out.append(('setInRun', src.endswith('True')))
         else:
@@ -291,12 +479,40 @@ def ctl_stmts(fn, method):
     return out
 
 
-def add_rule_stmts(stmts, names):
+def add_rule_pre(stmts):
+    """control-flow spellings of `add_rule` brought to one form (the flag `do_start_stop_run` is a parameter that is never
+    assigned - an assignment is not a statement of the language - so tests of it may be split, merged and turned around;
+    `self._in_run` is state that a sink can change and is left exactly where it is tested)"""
+    flag = 'do_start_stop_run'
+    out = []
+    for i, s in enumerate(stmts):
+        if isinstance(s, ast.If) and not s.orelse and ast.unparse(s.test) == 'not ' + flag and len(s.body) == 1 \
+                and isinstance(s.body[0], ast.Return) and (s.body[0].value is None or ast.unparse(s.body[0].value) == 'None') and stmts[i + 1:]:
+            s = ast.If(test=ast.Name(id=flag, ctx=ast.Load()), body=stmts[i + 1:], orelse=[])       # `if not flag: return` + rest
+            stmts = stmts[:i + 1]
+        if isinstance(s, ast.If) and not s.orelse and isinstance(s.test, ast.BoolOp) and isinstance(s.test.op, ast.And):
+            vs = s.test.values                                                                       # `if a and b: B` is `if a: if b: B`
+            inner = ast.If(test=vs[1] if len(vs) == 2 else ast.BoolOp(op=ast.And(), values=vs[1:]), body=s.body, orelse=[])
+            s = ast.If(test=vs[0], body=[inner], orelse=[])
+        if isinstance(s, ast.If) and not s.orelse:
+            s = ast.If(test=s.test, body=add_rule_pre(s.body), orelse=[])
+            if out and isinstance(out[-1], ast.If) and not out[-1].orelse and ast.unparse(out[-1].test) == flag == ast.unparse(s.test):
+                out[-1] = ast.If(test=s.test, body=add_rule_pre(out[-1].body + s.body), orelse=[])   # `if flag: A` `if flag: B`
+                continue
+        out.append(s)
+        if len(stmts) == i + 1:
+            break
+    return out
+
+
+def add_rule_stmts(stmts, names, pre=True):
     """`add_rule` -> AStmt (continuation style)"""
+    if pre:
+        stmts = add_rule_pre(stmts)
     if not stmts:
         return ('done',)
     s, rest = stmts[0], stmts[1:]
-    k = lambda: add_rule_stmts(rest, names)
+    k = lambda: add_rule_stmts(rest, names, False)
     src = ast.unparse(s)
     if isinstance(s, ast.Assign) and len(s.targets) == 1 and isinstance(s.targets[0], ast.Name) and \
             ast.unparse(s.value) in ('StreamResultRouter._policies.get(policy, None)', 'StreamResultRouter._policies.get(policy)',
@@ -310,9 +526,9 @@ def add_rule_stmts(stmts, names):
     if src == '%s(self, sink, **policy_args)' % pm:
         return ('callPolicy', k())
     if isinstance(s, ast.If) and not s.orelse and ast.unparse(s.test) == 'do_start_stop_run':
-        return ('ifFlag', add_rule_stmts(s.body, names), k())
+        return ('ifFlag', add_rule_stmts(s.body, names, False), k())
     if isinstance(s, ast.If) and not s.orelse and ast.unparse(s.test) == 'self._in_run':
-        return ('ifInRun', add_rule_stmts(s.body, names), k())
+        return ('ifInRun', add_rule_stmts(s.body, names, False), k())
     if src == 'self._sinks.append(sink)':
         return ('appendSink', k())
     if src == 'sink.startTestRun()':
@@ -404,7 +620,6 @@ class UpdateCase(Sym):
                 env[p] = ('arg', '.' + UARGS[p])
         Sym.__init__(self, env)
         self.rec = rec
-        self.returned = False
 
     def special_assign(self, s):
         t, v = s.targets[0], s.value
@@ -432,8 +647,11 @@ class UpdateCase(Sym):
         return True
 
     def effect(self, s):
-        if isinstance(s, ast.Return) and isinstance(s.value, ast.Name) and s.value.id == self.rec and not self.returned:
-            self.returned = True
+        if isinstance(s, ast.Return) and s.value is not None and 'out:status' not in self.env:      # one return on every path
+            if not (isinstance(s.value, ast.Name) and s.value.id == self.rec):
+                # `return case.set(…)`: the last update and the return in one
+                if not self.special_assign(ast.Assign(targets=[ast.Name(id=self.rec, ctx=ast.Store())], value=s.value)):
+                    return False
             for f in ('status', 'ts1', 'details', 'tags'):
                 self.env['out:' + f] = self.env['f:' + f]
             return True
@@ -456,7 +674,13 @@ def record_status_stmts(fn, upd_params):
     """`_StreamToTestRecord.status` -> [SStmt]"""
     params = [a.arg for a in fn.args.args]
     out = []
-    for s in body_of(fn):
+    body = body_of(fn)
+    for i, s in enumerate(body):
+        # `if test_status in INTERIM_STATES: return` + rest  is  `if test_status not in INTERIM_STATES: rest`
+        if ast.unparse(s) in ('if test_status in INTERIM_STATES:\n    return', 'if test_status in INTERIM_STATES:\n    return None') and body[i + 1:]:
+            body = body[:i] + [ast.If(test=ast.parse('test_status not in INTERIM_STATES', mode='eval').body, body=body[i + 1:], orelse=[])]
+            break
+    for s in body:
         src = ast.unparse(s)
         if isinstance(s, ast.Expr) and isinstance(s.value, ast.Call) and ast.unparse(s.value.func) == 'super().status':
             out.append(('superCall',))
@@ -470,7 +694,14 @@ def record_status_stmts(fn, upd_params):
             out.append(('updateCase',))      # every argument is handed to the parameter of the same name
         elif isinstance(s, ast.If) and not s.orelse and ast.unparse(s.test) == 'test_status not in INTERIM_STATES':
             body = []
-            for b in s.body:
+            stmts = list(s.body)
+            for j, b in enumerate(stmts[:-1]):
+                # `record = self._inprogress.pop(key)` `self.on_test(record)`: the popped record handed over, via a local
+                if isinstance(b, ast.Assign) and len(b.targets) == 1 and isinstance(b.targets[0], ast.Name) and b.targets[0].id not in params + ['key'] \
+                        and ast.unparse(b.value) == 'self._inprogress.pop(key)' and ast.unparse(stmts[j + 1]) == 'self.on_test(%s)' % b.targets[0].id:
+                    stmts[j:j + 2] = [ast.parse('self.on_test(self._inprogress.pop(key))').body[0]]
+                    break
+            for b in stmts:
                 bs = ast.unparse(b)
                 body.append({'self.on_test(self._inprogress.pop(key))': ('handOverPop',),
                              'self.on_test(self._inprogress[key])': ('handOverKeep',),
@@ -483,11 +714,40 @@ def record_status_stmts(fn, upd_params):
     return out
 
 
+class Rename(ast.NodeTransformer):
+    def __init__(self, mapping):
+        self.mapping = mapping
+
+    def visit_Name(self, n):
+        return ast.Name(id=self.mapping.get(n.id, n.id), ctx=n.ctx)
+
+
+def rename_local(node, old, new):
+    """alpha-renaming of a local (the caller makes sure `new` is not otherwise in use)"""
+    import copy
+    return ast.fix_missing_locations(Rename({old: new}).visit(copy.deepcopy(node)))
+
+
+def names_in(nodes):
+    return {n.id for x in nodes for n in ast.walk(x) if isinstance(n, ast.Name)}
+
+
 def ensure_key_stmts(fn):
     out = []
     if [a.arg for a in fn.args.args] != ['self', 'test_id', 'route_code', 'timestamp']:
         out.append(OTHER)
-    for s in body_of(fn):
+    body = body_of(fn)
+    # `if test_id is not None: B; return key` [`return None`]  is  `if test_id is None: return` B `return key`
+    if body and isinstance(body[0], ast.If) and not body[0].orelse and ast.unparse(body[0].test) == 'test_id is not None' and body[0].body \
+            and isinstance(body[0].body[-1], ast.Return) and [ast.unparse(x) for x in body[1:]] in ([], ['return'], ['return None']):
+        body = [ast.parse('if test_id is None:\n    return').body[0]] + body[0].body
+    # the local that holds the key, whatever it is called
+    for s in body:
+        if isinstance(s, ast.Assign) and len(s.targets) == 1 and isinstance(s.targets[0], ast.Name) and ast.unparse(s.value) == '(test_id, route_code)' \
+                and s.targets[0].id not in ('self', 'test_id', 'route_code', 'timestamp', 'key') and 'key' not in names_in(body):
+            body = [rename_local(x, s.targets[0].id, 'key') for x in body]
+            break
+    for s in body:
         src = ast.unparse(s)
         out.append({'if test_id is None:\n    return': ('returnIfNoId',),
                     'if test_id is None:\n    return None': ('returnIfNoId',),
@@ -504,10 +764,21 @@ def record_stop_stmts(fn):
         if src == 'super().stopTestRun()':
             out.append(('superCall',))
         elif isinstance(s, ast.While) and not s.orelse and ast.unparse(s.test) == 'self._inprogress':
-            body = [ast.unparse(b) for b in s.body]
-            if len(body) == 2 and isinstance(s.body[0], ast.Assign) and isinstance(s.body[0].targets[0], ast.Name) \
-                    and ast.unparse(s.body[0].value) == 'self._inprogress.popitem()[1]' \
-                    and body[1] == 'self.on_test(%s.got_timestamp(None))' % s.body[0].targets[0].id:
+            b = s.body
+            rec = None
+            # case = self._inprogress.popitem()[1]   /   _, case = self._inprogress.popitem()
+            if b and isinstance(b[0], ast.Assign) and len(b[0].targets) == 1:
+                t, v = b[0].targets[0], ast.unparse(b[0].value)
+                if isinstance(t, ast.Name) and v == 'self._inprogress.popitem()[1]':
+                    rec = t.id
+                elif isinstance(t, ast.Tuple) and len(t.elts) == 2 and all(isinstance(x, ast.Name) for x in t.elts) and t.elts[0].id != t.elts[1].id \
+                        and v == 'self._inprogress.popitem()':
+                    rec = t.elts[1].id
+            rest = [ast.unparse(x) for x in b[1:]]
+            # self.on_test(case.got_timestamp(None))   /   x = case.got_timestamp(None); self.on_test(x)
+            if rec is not None and (rest == ['self.on_test(%s.got_timestamp(None))' % rec] or (
+                    len(rest) == 2 and isinstance(b[1], ast.Assign) and len(b[1].targets) == 1 and isinstance(b[1].targets[0], ast.Name)
+                    and rest[0] == '%s = %s.got_timestamp(None)' % (b[1].targets[0].id, rec) and rest[1] == 'self.on_test(%s)' % b[1].targets[0].id)):
                 out.append(('drainPopitem',))
             else:
                 out.append(OTHER)
@@ -519,7 +790,11 @@ def record_stop_stmts(fn):
 def forward_stmts(fn, method, hook):
     """wrappers that hand a call on to their `_StreamToTestRecord` (`StreamToDict`, `StreamToExtendedDecorator`) -> [FStmt]"""
     out = []
-    for s in body_of(fn):
+    body = body_of(fn)
+    # `if test_status != "exists": B` as the last statement  is  `if test_status == "exists": return` B
+    if body and isinstance(body[-1], ast.If) and not body[-1].orelse and ast.unparse(body[-1].test) == "test_status != 'exists'":
+        body = body[:-1] + [ast.parse("if test_status == 'exists':\n    return").body[0]] + body[-1].body
+    for s in body:
         src = ast.unparse(s)
         if src in ('super().%s(*args, **kwargs)' % method, 'super().%s()' % method):
             out.append(('superCall',))
@@ -540,10 +815,19 @@ def handle_stmts(fn):
     out = []
     p = [a.arg for a in fn.args.args]
     rec = p[1] if len(p) == 2 else '?'
-    for s in body_of(fn):
+    body = body_of(fn)
+    if len(body) == 2 and isinstance(body[0], ast.Assign) and len(body[0].targets) == 1 and isinstance(body[0].targets[0], ast.Name) \
+            and body[0].targets[0].id not in p:
+        x = body[0].targets[0].id                   # a local for the intermediate value, whatever it is called
+        if ast.unparse(body[0].value) == '%s.to_dict()' % rec and ast.unparse(body[1]) == 'self.on_test(%s)' % x:
+            return [('onTestDict',)]
+        body = [rename_local(b, x, 'case') for b in body] if x != 'case' and 'case' not in names_in(body) else body
+    for s in body:
         src = ast.unparse(s)
+        if src == '%s.to_test_case().run(self.decorated)' % rec:
+            out += [('toTestCase',), ('runCase',)]       # the two calls chained: the same two calls
+            continue
         out.append({'case = %s.to_test_case()' % rec: ('toTestCase',), 'case.run(self.decorated)': ('runCase',),
-                    '%s.to_test_case().run(self.decorated)' % rec: ('toTestCaseRun',),
                     'self.on_test(%s.to_dict())' % rec: ('onTestDict',)}.get(src, OTHER))
     return out
 
@@ -606,29 +890,50 @@ LEAN_FIELD = {'test_id': 'testId', 'test_status': 'status', 'test_tags': 'tags',
 
 
 class Stamp(Sym):
-    """`TimestampingStreamResult.status(self, *args, **kwargs)`: the timestamp handed on"""
+    """`TimestampingStreamResult.status(self, *args, **kwargs)`: the timestamp handed on.
+    `kw:ts` is what kwargs holds under "timestamp" at this point (`absent` once popped)."""
+    ABSENT = ('absent',)
 
     def __init__(self):
-        Sym.__init__(self, {})
+        Sym.__init__(self, {'kw:ts': ('kwTimestamp',)})
+
+    def norm(self, c):
+        # a datetime is never false: `timestamp or now` reads like `timestamp if timestamp is not None else now`
+        return ('notNone', c[1]) if c == ('truthy', ('kwTimestamp',)) else c
+
+    def special_assign(self, s):
+        # kwargs["timestamp"] = X
+        if ast.unparse(s.targets[0]) == "kwargs['timestamp']":
+            self.env['kw:ts'] = self.expr(s.value)
+            return True
+        return False
 
     def atom(self, e):
         src = ast.unparse(e)
         if src in ("kwargs.pop('timestamp', None)", "kwargs.get('timestamp', None)", "kwargs.get('timestamp')"):
+            v = self.env['kw:ts']
+            if self.ABSENT in flat(v):
+                return OTHER                         # read after it was popped: not in the language
             if src.startswith('kwargs.pop'):
-                self.env['__popped__'] = ('none',)
-            return ('kwTimestamp',)
+                self.env['kw:ts'] = self.ABSENT
+            return v
         if src in ('datetime.datetime.now(utc)', 'datetime.datetime.now(datetime.timezone.utc)'):
             return ('now',)
         return None
 
     def effect(self, s):
-        # super().status(*args, timestamp=<t>, **kwargs) with `timestamp` popped from kwargs before
         if isinstance(s, ast.Expr) and isinstance(s.value, ast.Call) and ast.unparse(s.value.func) == 'super().status' and '__out__' not in self.env:
             c = s.value
             kws = [(k.arg, k.value) for k in c.keywords]
-            if [ast.unparse(a) for a in c.args] == ['*args'] and [k for k, _ in kws] == ['timestamp', None] and ast.unparse(kws[1][1]) == 'kwargs' \
-                    and '__popped__' in self.env:
+            if [ast.unparse(a) for a in c.args] != ['*args']:
+                return False
+            # super().status(*args, timestamp=<t>, **kwargs) with `timestamp` popped from kwargs before (else: passed twice)
+            if [k for k, _ in kws] == ['timestamp', None] and ast.unparse(kws[1][1]) == 'kwargs' and self.env['kw:ts'] == self.ABSENT:
                 self.env['__out__'] = self.expr(kws[0][1])
+                return True
+            # super().status(*args, **kwargs): what kwargs holds now
+            if [k for k, _ in kws] == [None] and ast.unparse(kws[0][1]) == 'kwargs':
+                self.env['__out__'] = OTHER if self.ABSENT in flat(self.env['kw:ts']) else self.env['kw:ts']
                 return True
         return False
 
@@ -643,8 +948,19 @@ class QueueRoute(Sym):
         src = ast.unparse(e)
         if src == 'self.routing_code':
             return ('code',)
-        if src in ("self.routing_code + '/' + route_code",) and self.env.get('route_code') == ('kwRoute',):
-            return ('join', ('code',), ('kwRoute',))
+        # a + "/" + b   /   "/".join((a, b))   /   f"{a}/{b}"   (both are str: the three spell the same string)
+        parts = None
+        if isinstance(e, ast.BinOp) and isinstance(e.op, ast.Add) and isinstance(e.left, ast.BinOp) and isinstance(e.left.op, ast.Add) \
+                and isinstance(e.left.right, ast.Constant) and e.left.right.value == '/':
+            parts = (e.left.left, e.right)
+        elif isinstance(e, ast.Call) and ast.unparse(e.func) == "'/'.join" and len(e.args) == 1 and not e.keywords \
+                and isinstance(e.args[0], (ast.Tuple, ast.List)) and len(e.args[0].elts) == 2:
+            parts = tuple(e.args[0].elts)
+        elif isinstance(e, ast.JoinedStr) and len(e.values) == 3 and isinstance(e.values[1], ast.Constant) and e.values[1].value == '/' \
+                and all(isinstance(v, ast.FormattedValue) and v.conversion == -1 and v.format_spec is None for v in (e.values[0], e.values[2])):
+            parts = (e.values[0].value, e.values[2].value)
+        if parts is not None:
+            return ('join', self.expr(parts[0]), self.expr(parts[1]))
         return None
 
     def effect(self, s):
@@ -662,14 +978,35 @@ def status_params(fn):
 
 
 def queue_dict(fn):
-    """the `dict(event="status", k=v, …)` put on the queue by `StreamToQueue.status` -> [(field, QArg)] in canonical field order"""
+    """the `dict(event="status", k=v, …)` (or `{"event": "status", "k": v, …}`) put on the queue by `StreamToQueue.status`
+    -> [(field, QArg)] in canonical field order.  The dict and the adjusted route code may be bound to locals first."""
     body = body_of(fn)
-    if len(body) != 1 or not (isinstance(body[0], ast.Expr) and isinstance(body[0].value, ast.Call) and ast.unparse(body[0].value.func) == 'self.queue.put'
-                              and len(body[0].value.args) == 1 and isinstance(body[0].value.args[0], ast.Call) and ast.unparse(body[0].value.args[0].func) == 'dict'
-                              and not body[0].value.args[0].args):
+    params = [a.arg for a in fn.args.args]
+    local = {}
+    for st in body[:-1]:
+        if not (isinstance(st, ast.Assign) and len(st.targets) == 1 and isinstance(st.targets[0], ast.Name) and st.targets[0].id not in params
+                and st.targets[0].id not in local):
+            return None
+        local[st.targets[0].id] = st.value
+    if not body or not (isinstance(body[-1], ast.Expr) and isinstance(body[-1].value, ast.Call) and ast.unparse(body[-1].value.func) == 'self.queue.put'
+                        and len(body[-1].value.args) == 1 and not body[-1].value.keywords):
         return None
-    kws = {k.arg: k.value for k in body[0].value.args[0].keywords}
-    if len(kws) != len(body[0].value.args[0].keywords) or ast.unparse(kws.pop('event', ast.Constant(value=None))) != "'status'":
+    d = body[-1].value.args[0]
+    if isinstance(d, ast.Name) and d.id in local:
+        d = local.pop(d.id)
+    if isinstance(d, ast.Call) and ast.unparse(d.func) == 'dict' and not d.args and all(k.arg for k in d.keywords):
+        items = [(k.arg, k.value) for k in d.keywords]
+    elif isinstance(d, ast.Dict) and all(isinstance(k, ast.Constant) and isinstance(k.value, str) for k in d.keys):
+        items = [(k.value, v) for k, v in zip(d.keys, d.values)]
+    else:
+        return None
+    kws = dict(items)
+    if len(kws) != len(items) or ast.unparse(kws.pop('event', ast.Constant(value=None))) != "'status'":
+        return None
+    for k, v in list(kws.items()):
+        if isinstance(v, ast.Name) and v.id in local and ast.unparse(local[v.id]) == 'self.route_code(route_code)':
+            kws[k] = local.pop(v.id)
+    if local:
         return None
     out = []
     for f in FIELDS:                         # a dict: the order of the keywords is irrelevant
@@ -695,6 +1032,9 @@ def copy_stmts(fn, method):
             out.append(('superCall',))
         elif src in ("_strict_map(methodcaller('%s'), self.targets)" % method, "_strict_map(methodcaller('%s', *args, **kwargs), self.targets)" % method):
             out.append(('mapTargets',))
+        elif isinstance(s, ast.For) and not s.orelse and isinstance(s.target, ast.Name) and ast.unparse(s.iter) == 'self.targets' \
+                and [ast.unparse(b) for b in s.body] == ['%s.%s(%s)' % (s.target.id, method, '*args, **kwargs' if method == 'status' else '')]:
+            out.append(('mapTargets',))      # the plain loop `_strict_map` stands for: every target in order, the first exception ends it
         else:
             out.append(OTHER)
     if method == 'status' and not (fn.args.vararg and fn.args.kwarg and [a.arg for a in fn.args.args] == ['self']):
@@ -702,17 +1042,41 @@ def copy_stmts(fn, method):
     return out
 
 
+def status_set(t):
+    """a test of `test_status` against literal states -> (True, states) for `in` / `==` / `or` of those, (False, states) for
+    `not in` / `!=` / `and` of those; None for anything else"""
+    if isinstance(t, ast.Compare) and len(t.ops) == 1 and ast.unparse(t.left) == 'test_status':
+        op, c = t.ops[0], t.comparators[0]
+        if isinstance(op, (ast.In, ast.NotIn)) and isinstance(c, (ast.Tuple, ast.List, ast.Set)) \
+                and all(isinstance(x, ast.Constant) and x.value in STATUS_LEAN for x in c.elts):
+            return (isinstance(op, ast.In), {x.value for x in c.elts})
+        if isinstance(op, (ast.Eq, ast.NotEq)) and isinstance(c, ast.Constant) and c.value in STATUS_LEAN:
+            return (isinstance(op, ast.Eq), {c.value})
+    if isinstance(t, ast.BoolOp):
+        parts = [status_set(v) for v in t.values]
+        if all(p is not None and p[0] == isinstance(t.op, ast.Or) for p in parts):
+            return (isinstance(t.op, ast.Or), set().union(*[p[1] for p in parts]))
+    return None
+
+
 def failfast_stmts(fn):
     out = []
-    for s in body_of(fn):
-        if isinstance(s, ast.If) and not s.orelse and isinstance(s.test, ast.Compare) and len(s.test.ops) == 1 and isinstance(s.test.ops[0], ast.In) \
-                and ast.unparse(s.test.left) == 'test_status' and isinstance(s.test.comparators[0], (ast.Tuple, ast.List, ast.Set)) \
-                and all(isinstance(x, ast.Constant) and x.value in STATUS_LEAN for x in s.test.comparators[0].elts) \
-                and [ast.unparse(b) for b in s.body] == ['self.on_error()']:
-            sts = sorted({x.value for x in s.test.comparators[0].elts}, key=list(STATUS_LEAN).index)
+    body = body_of(fn)
+    # `if <not an error state>: return` `self.on_error()`  is  `if <an error state>: self.on_error()`
+    if len(body) == 2 and isinstance(body[0], ast.If) and not body[0].orelse and [ast.unparse(b) for b in body[0].body] in (['return'], ['return None']) \
+            and (status_set(body[0].test) or (True,))[0] is False:
+        body = [ast.If(test=ast.UnaryOp(op=ast.Not(), operand=body[0].test), body=body[1:], orelse=[])]
+    for s in body:
+        st = status_set(s.test.operand if isinstance(s.test, ast.UnaryOp) else s.test) if isinstance(s, ast.If) and not s.orelse else None
+        if st is not None and isinstance(s.test, ast.UnaryOp):
+            st = (not st[0], st[1]) if isinstance(s.test.op, ast.Not) else None
+        if st is not None and st[0] and [ast.unparse(b) for b in s.body] == ['self.on_error()']:
+            sts = sorted(st[1], key=list(STATUS_LEAN).index)
             out.append('(.ifStatusInThenOnError [%s])' % ', '.join('.' + STATUS_LEAN[x] for x in sts))
         else:
             out.append('.other')
+    if [a.arg for a in fn.args.args][:3] != ['self', 'test_id', 'test_status']:
+        out.append('.other')
     return '[' + ', '.join(out) + ']'
 
 
@@ -811,20 +1175,86 @@ def detail_body(stmts):
             out.append(('initPending',))
         elif isinstance(s, ast.For) and not s.orelse and ast.unparse(s.target) == 'next_bytes' and ast.unparse(s.iter) == 'content.iter_bytes()':
             out.append(('forChunks', chunk_body(s.body)))
-        elif src in ("if file_bytes is None:\n    file_bytes = _b('')", "if file_bytes is None:\n    file_bytes = b''"):
+        elif src in ["if file_bytes is None:\n    file_bytes = %s" % e for e in ("_b('')", "b''")] \
+                + ["file_bytes = %s if file_bytes is None else file_bytes" % e for e in ("_b('')", "b''")] \
+                + ["file_bytes = file_bytes if file_bytes is not None else %s" % e for e in ("_b('')", "b''")]:
             out.append(('defaultEmpty',))
         elif status_call(s) == dict(FILE_EVENT, eof='True'):
             out.append(('emitLast',))
         else:
             out.append(OTHER)
+    if out[:2] == [('initPending',), ('bindMime',)]:
+        out[:2] = [('bindMime',), ('initPending',)]      # two pure bindings of different locals, next to each other: either order
     return out
+
+
+class Inline(ast.NodeTransformer):
+    def __init__(self, name, value):
+        self.name, self.value = name, value
+
+    def visit_Name(self, n):
+        return self.value if n.id == self.name and isinstance(n.ctx, ast.Load) else n
+
+
+def convert_pre(fn):
+    """`_convert` with its locals under their canonical names and two spellings unfolded:
+    - the locals are recognised by what is bound to them (`X = test.id()` is `test_id`, `X = self._now()` is `now`, the targets of
+      the loop over `details.items()` are `name, content`, `X = repr(content.content_type)` is `mime_type`, the `X = None` in
+      that loop is `file_bytes`, the target of the loop over `content.iter_bytes()` is `next_bytes`) and renamed - when that is
+      an injective renaming onto names not otherwise in use;
+    - `for name in details: content = details[name]; …` is the loop over `details.items()`;
+    - `tags = self.current_tags` right before the one statement that uses `tags` is that statement with `self.current_tags`."""
+    import copy
+    params = [a.arg for a in fn.args.args]
+    body = copy.deepcopy(body_of(fn))
+    # for k in details: v = details[k]; …
+    for n in [x for b in body for x in ast.walk(b)]:
+        if isinstance(n, ast.For) and isinstance(n.target, ast.Name) and ast.unparse(n.iter) == 'details' and n.body \
+                and isinstance(n.body[0], ast.Assign) and len(n.body[0].targets) == 1 and isinstance(n.body[0].targets[0], ast.Name) \
+                and ast.unparse(n.body[0].value) == 'details[%s]' % n.target.id and n.body[0].targets[0].id != n.target.id:
+            n.target = ast.Tuple(elts=[n.target, n.body[0].targets[0]], ctx=ast.Store())
+            n.iter = ast.parse('details.items()', mode='eval').body
+            n.body = n.body[1:] or [ast.Pass()]
+    role = {}
+    content = None
+    for n in [x for b in body for x in ast.walk(b)]:
+        if isinstance(n, ast.For) and ast.unparse(n.iter) == 'details.items()' and isinstance(n.target, ast.Tuple) and len(n.target.elts) == 2 \
+                and all(isinstance(x, ast.Name) for x in n.target.elts):
+            role.setdefault(n.target.elts[0].id, []).append('name')
+            role.setdefault(n.target.elts[1].id, []).append('content')
+            content = n.target.elts[1].id
+            for m in n.body:
+                if isinstance(m, ast.Assign) and len(m.targets) == 1 and isinstance(m.targets[0], ast.Name):
+                    if ast.unparse(m.value) == 'repr(%s.content_type)' % content:
+                        role.setdefault(m.targets[0].id, []).append('mime_type')
+                    elif ast.unparse(m.value) == 'None':
+                        role.setdefault(m.targets[0].id, []).append('file_bytes')
+                if isinstance(m, ast.For) and isinstance(m.target, ast.Name) and ast.unparse(m.iter) == '%s.iter_bytes()' % content:
+                    role.setdefault(m.target.id, []).append('next_bytes')
+    for b in body:
+        if isinstance(b, ast.Assign) and len(b.targets) == 1 and isinstance(b.targets[0], ast.Name):
+            r = {'test.id()': 'test_id', 'self._now()': 'now'}.get(ast.unparse(b.value))
+            if r:
+                role.setdefault(b.targets[0].id, []).append(r)
+    mapping = {k: v[0] for k, v in role.items() if len(v) == 1 and k != v[0] and k not in params}
+    used = names_in(body) | set(params)
+    if mapping and len(set(mapping.values())) == len(mapping) and not (set(mapping.values()) & (used - set(mapping))):
+        body = [ast.fix_missing_locations(Rename(mapping).visit(b)) for b in body]
+    # x = self.current_tags; <the one statement that reads x>
+    for i, b in enumerate(body[:-1]):
+        if isinstance(b, ast.Assign) and len(b.targets) == 1 and isinstance(b.targets[0], ast.Name) and ast.unparse(b.value) == 'self.current_tags':
+            x = b.targets[0].id
+            if x not in params and x not in names_in(body[:i] + body[i + 2:]) and status_call(body[i + 1]) is not None:
+                body[i:i + 2] = [ast.fix_missing_locations(Inline(x, b.value).visit(body[i + 1]))]
+                break
+    return body
 
 
 def convert_stmts(fn):
     out = []
     if [a.arg for a in fn.args.args] != ['self', 'test', 'err', 'details', 'status', 'reason']:
         out.append(OTHER)
-    for s in body_of(fn):
+    for s in convert_pre(fn):
         src = ast.unparse(s)
         c = status_call(s)
         if src == 'if not self._started:\n    self.startTestRun()':
@@ -840,8 +1270,9 @@ def convert_stmts(fn):
                 and ast.unparse(s.body[0].iter) == 'details.items()':
             out.append(('ifDetailsFor', detail_body(s.body[0].body)))
         elif isinstance(s, ast.If) and not s.orelse and ast.unparse(s.test) == 'reason is not None' and len(s.body) == 1 \
-                and status_call(s.body[0]) == {'file_name': "'reason'", 'file_bytes': "reason.encode('utf8')", 'eof': 'True',
-                                               'mime_type': "'text/plain; charset=utf8'", 'test_id': 'test_id', 'timestamp': 'now'}:
+                and dict(status_call(s.body[0]) or {}, file_bytes='') == {'file_name': "'reason'", 'file_bytes': '', 'eof': 'True',
+                                               'mime_type': "'text/plain; charset=utf8'", 'test_id': 'test_id', 'timestamp': 'now'} \
+                and status_call(s.body[0]).get('file_bytes') in ("reason.encode('utf8')", "reason.encode('utf-8')"):     # one codec, two names
             out.append(('ifReasonEmit',))
         elif c == {'test_id': 'test_id', 'test_status': 'status', 'test_tags': 'self.current_tags', 'timestamp': 'now'}:
             out.append(('emitFinal',))
@@ -857,6 +1288,17 @@ def e2s_start_stmts(fn):
         out.append({'super().startTestRun()': ('superCall',), 'self._tags = TagContext()': ('resetTags',),
                     'self.shouldStop = False': ('clearStop',), 'self.__now = None': ('resetClock',),
                     'self._started = True': ('setStarted',)}.get(ast.unparse(st), OTHER))
+    # a run of assignments of fresh values to different attributes, next to each other: any order (written in the order of
+    # the source as it is); where the run stands relative to `super().startTestRun()` - which calls out - is kept
+    order = [('resetTags',), ('clearStop',), ('resetClock',), ('setStarted',)]
+    i = 0
+    while i < len(out):
+        j = i
+        while j < len(out) and out[j] in order:
+            j += 1
+        if len(set(out[i:j])) == j - i:
+            out[i:j] = sorted(out[i:j], key=order.index)
+        i = j + 1
     return out
 
 
@@ -882,8 +1324,37 @@ def generate_convert(repo):
     return {'TTV/Generated/ConvertSrc.lean': convert_src(parse(repo))}
 
 
+class Canon(ast.NodeTransformer):
+    """spellings of tests that mean the same, brought to one form before anything is matched:
+    `not (a in b)` / `not a in b` -> `a not in b` (likewise `is` / `is not`, and the converse), `x == None` / `x != None` for a
+    plain name x -> `x is None` / `x is not None` (the names tested in the translated functions hold str / bytes / tuple / dict /
+    datetime / None - nothing that compares equal to None), `if c: pass else: B` -> `if not c: B`."""
+    FLIP = {ast.In: ast.NotIn, ast.NotIn: ast.In, ast.Is: ast.IsNot, ast.IsNot: ast.Is}
+
+    def visit_Compare(self, n):
+        self.generic_visit(n)
+        if len(n.ops) == 1 and isinstance(n.left, ast.Name) and isinstance(n.comparators[0], ast.Constant) and n.comparators[0].value is None \
+                and isinstance(n.ops[0], (ast.Eq, ast.NotEq)):
+            n.ops = [ast.Is() if isinstance(n.ops[0], ast.Eq) else ast.IsNot()]
+        return n
+
+    def visit_UnaryOp(self, n):
+        self.generic_visit(n)
+        if isinstance(n.op, ast.Not) and isinstance(n.operand, ast.Compare) and len(n.operand.ops) == 1 and type(n.operand.ops[0]) in self.FLIP:
+            return ast.Compare(left=n.operand.left, ops=[self.FLIP[type(n.operand.ops[0])]()], comparators=n.operand.comparators)
+        return n
+
+    def visit_If(self, n):
+        self.generic_visit(n)
+        if n.orelse and all(isinstance(b, ast.Pass) for b in n.body):
+            return ast.If(test=self.visit_UnaryOp(ast.UnaryOp(op=ast.Not(), operand=n.test)) if not isinstance(n.test, ast.UnaryOp)
+                          else (n.test.operand if isinstance(n.test.op, ast.Not) else ast.UnaryOp(op=ast.Not(), operand=n.test)),
+                          body=n.orelse, orelse=[])
+        return n
+
+
 def parse(repo):
-    return ast.parse(open(os.path.join(repo, 'testtools', 'testresult', 'real.py')).read())
+    return ast.fix_missing_locations(Canon().visit(ast.parse(open(os.path.join(repo, 'testtools', 'testresult', 'real.py')).read())))
 
 
 def generate_router(repo):
